@@ -324,6 +324,11 @@ class CentrallyBin(Factory, Container):
 
     @inheritdoc(Container)
     def zero(self):
+        if self.value is None:
+            # immutable form (ed/fromJson): there is no value template, rebuild the bins from the existing ones
+            out = CentrallyBin.ed(0.0, [(c, v.zero()) for c, v in self.bins], self.nanflow.zero())
+            out.quantity = self.quantity
+            return out
         return CentrallyBin([c for c, v in self.bins], self.quantity, self.value, self.nanflow.zero())
 
     @inheritdoc(Container)
